@@ -14,6 +14,7 @@ import (
 	"runtime/debug"
 	"sort"
 	"sync"
+	"sync/atomic"
 	"time"
 	"unsafe"
 )
@@ -188,10 +189,20 @@ type Options struct {
 	EarlyTimers bool // allow timers to fire before quiescence (as deviations)
 }
 
+var resetHooks []func()
+
+// RegisterReset registers a function that restores process-global state (object
+// pools of the code under test) before every controlled run, so that one
+// execution cannot influence the next.
+func RegisterReset(f func()) { resetHooks = append(resetHooks, f) }
+
 // Run executes main under the controlled scheduler.
 func Run(strategy Strategy, opt Options, main func()) *Result {
 	if s != nil {
 		panic("vrt: nested Run")
+	}
+	for _, f := range resetHooks {
+		f()
 	}
 	if opt.MaxSteps == 0 {
 		opt.MaxSteps = 100000
@@ -508,9 +519,30 @@ func GoNamed(name string, f func()) {
 	s.newThread(name, f)
 }
 
+// Perturb, when non-zero, makes pass-through scheduling points yield the
+// processor pseudo-randomly (used by the free-running -race pass).
+var Perturb uint32
+
+func perturb() {
+	if atomic.LoadUint32(&Perturb) == 0 {
+		return
+	}
+	x := atomic.AddUint32(&Perturb, 0x9e3779b1)
+	x ^= x >> 15
+	x *= 0x2c1b3c6d
+	x ^= x >> 12
+	switch x % 16 {
+	case 0:
+		time.Sleep(time.Duration(x>>8%200) * time.Microsecond)
+	case 1, 2, 3:
+		runtime.Gosched()
+	}
+}
+
 // Yield is an explicit scheduling point.
 func Yield(label string) {
 	if s == nil {
+		perturb()
 		return
 	}
 	s.block(&op{kind: opYield, label: label})
